@@ -195,6 +195,69 @@ func collectLeaves(v reflect.Value, path string, out *[]leaf) {
 	}
 }
 
+// correlate returns a copy of p in which one numeric field has been tied to another one
+// (equal, off by one, or complementary with respect to the field width), if the result still
+// lies in D; otherwise p itself. Independent boundary-biased draws almost never produce such
+// relations between two fields (A == B+1, A+B == 2^16, …).
+func correlate(r *core.Rand, p rtcp.Packet) rtcp.Packet {
+	q := clonePacket(p)
+	var ls []leaf
+	collectLeaves(reflect.ValueOf(q), "", &ls)
+	if _, compound := p.(*rtcp.CompoundPacket); compound {
+		return p // members get tied fields in their own kinds; the compound grammar (CNAME item type) must stay intact
+	}
+	var nums []leaf
+	for _, l := range ls {
+		// structural fields whose values are tied to the rest of the value by D itself are left alone
+		if strings.Contains(l.path, "PacketChunks") || strings.Contains(l.path, "RecvDeltas") || strings.Contains(l.path, "PacketStatusCount") ||
+			strings.Contains(l.path, "Header") || strings.HasSuffix(l.path, ".Type") {
+			continue
+		}
+		switch l.v.Kind() {
+		case reflect.Uint8, reflect.Uint16, reflect.Uint32, reflect.Uint64:
+			nums = append(nums, l)
+		}
+	}
+	if len(nums) < 2 {
+		return p
+	}
+	for n := 1 + r.Intn(2); n > 0; n-- {
+		a, b := nums[r.Intn(len(nums))], nums[r.Intn(len(nums))]
+		if a.v == b.v {
+			continue
+		}
+		bits := uint(a.v.Type().Bits())
+		mask := ^uint64(0)
+		if bits < 64 {
+			mask = uint64(1)<<bits - 1
+		}
+		bv := b.v.Uint()
+		var nv uint64
+		switch r.Intn(6) {
+		case 0:
+			nv = bv
+		case 1:
+			nv = bv + 1
+		case 2:
+			nv = bv - 1
+		case 3:
+			nv = (uint64(1) << (bits % 64)) - bv // a+b == 2^bits
+		case 4:
+			nv = (uint64(1) << (bits % 64)) - bv - 1 // a+b == 2^bits-1
+		default:
+			nv = ^bv
+		}
+		a.v.SetUint(nv & mask)
+	}
+	if t, ok := q.(*rtcp.TransportLayerCC); ok {
+		fixTWCCHeader(t)
+	}
+	if _, err := ref.Encode(q, ref.Lib); err != nil {
+		return p
+	}
+	return q
+}
+
 // walkBase builds, per kind, a value with one (or two) element(s) in every list and all
 // scalar fields zero.
 func walkBase(k gen.Kind) rtcp.Packet {
